@@ -11,6 +11,7 @@ from __future__ import annotations
 import itertools
 from typing import Any, Dict, List, Tuple
 
+import gentie
 import vlib
 
 GROUPS = ["g", "h"]
@@ -449,6 +450,9 @@ def run(ctx: vlib.Ctx):
                       found_input=False)
     elif disagreements:
         ctx.notes.append(f"{len(disagreements)} model/impl disagreements (first: {disagreements[0]})")
+    # generated tie: PluginRef.__eq__/__ge__/__hash__/supports and the entry-point name codec are
+    # re-translated from the current source and proved equal to the model (coq/Gen/Equiv_*.v)
+    gentie.report(ctx)
 
 
 def _hist(it):
